@@ -278,17 +278,23 @@ def sync_inv(s, old, spa, start, length):
 
 
 @harness(prop="C01", target="geckolib.driver.spastruct:GeckoStructure.retry_request")
-def sync_request_establishes_invariant(spa: bytes, old: bytes, start: int, length: int):
+def sync_request_establishes_invariant(spa: bytes, old: bytes, start: int, length: int, stale_ne: int, stale: bytes, used_before: bool):
     requires(valid_request(spa, start, length))
     requires(len(old) == 1024)
     s = GeckoStructure(None)
     s.set_status_block(old)
+    if used_before:
+        # whatever an earlier (completed or abandoned) transfer left behind must not leak into this one
+        s._next_expected = stale_ne
+        s._status_block_segments = [stale]
+        s._status_block_offset = 7
     sock = SockRec()
     req = make_request(start, length)
     s.retry_request(sock, req, SENDER)
     ensures("one-request-sent", sock.sends == 1)
     ensures("handler-registered-once", len(sock.handlers) == 1)
     ensures("invariant-established", sync_inv(s, old, spa, start, length))
+    cover("structure-used-before-with-leftovers", both(used_before, stale_ne > 0, len(stale) > 0))
 
 
 @harness(prop="C01", target="geckolib.driver.spastruct:GeckoStructure._on_status_block_received")
